@@ -34,6 +34,7 @@ pub const HARNESSES: &[(&str, fn())] = &[
     ("c06_lexicase_empty", c06_lexicase_empty),
     ("c06_lexicase_missing", c06_lexicase_missing),
     ("c06_lexicase_single", c06_lexicase_single),
+    ("c06_lexicase_ragged", c06_lexicase_ragged),
     ("c06_lexicase_one_case", c06_lexicase_one_case),
     ("c06_weighted", c06_weighted),
     ("c06_weighted_pair", c06_weighted_pair),
@@ -43,12 +44,13 @@ pub const HARNESSES: &[(&str, fn())] = &[
 
 pub type Ind = EcIndividual<u8, i64>;
 
-/// population of `len` individuals with symbolic fitness; the genome is the index (identity tag)
+/// population of `len` individuals with symbolic fitness and symbolic genomes (equal genomes with different results
+/// included); identity is by address
 pub fn sym_pop(len: usize) -> Vec<Ind> {
     let mut v = Vec::new();
     let mut i = 0;
     while i < len {
-        v.push(EcIndividual::new(i as u8, any_i64()));
+        v.push(EcIndividual::new(any_u8(), any_i64()));
         i += 1;
     }
     v
@@ -299,6 +301,25 @@ fn p_c06_lexicase_missing() {
     c06_lexicase_missing()
 }
 
+/// ragged results: the first individual has the case, a later one does not -> MissingTestCase, never a panic
+pub fn c06_lexicase_ragged() {
+    let pop = vec![lex_ind(0, vec![any_i64()]), lex_ind(1, vec![])];
+    let mut rng = SymRng::new(4);
+    match Lexicase::new(1).select(&pop, &mut rng) {
+        Err(LexicaseError::MissingTestCase { total_cases, current_index }) => {
+            check!(total_cases == 1 && current_index == 0, "MissingTestCase names the configured case count and the missing index");
+            cover!(true, "missing test case reported");
+        }
+        _ => check!(false, "a missing test-case result is reported as MissingTestCase (not a panic, not a selection)"),
+    }
+}
+#[cfg(kani)]
+#[kani::proof]
+#[kani::unwind(5)]
+fn p_c06_lexicase_ragged() {
+    c06_lexicase_ragged()
+}
+
 /// single individual: returned whatever the case count
 pub fn c06_lexicase_single() {
     let cases = any_upto(2);
@@ -435,7 +456,17 @@ fn p_c06_weighted_pair() {
 
 pub fn c06_dyn_weighted() {
     let pop = sym_pop(3);
-    let (w0, w1, w2) = (any_upto(3), any_upto(3), any_upto(3));
+    // weights include a value beyond 32 bits (usize weights must not be truncated)
+    fn some_w() -> usize {
+        match any_u8() % 5 {
+            0 => 0,
+            1 => 1,
+            2 => 3,
+            3 => 1usize << 32,
+            _ => 2,
+        }
+    }
+    let (w0, w1, w2) = (some_w(), some_w(), some_w());
     let sel = DynWeighted::new(Pick { idx: 0, fail: false }, w0).with_selector(Pick { idx: 1, fail: false }, w1).with_selector(Pick { idx: 2, fail: false }, w2);
     let mut rng = SymRng::new(4);
     match sel.select(&pop, &mut rng) {
